@@ -20,7 +20,7 @@ func init() {
 			`R01.4 every SyncOp/SyncHeader kind the writers emit has a case on the reader side; R01.5 NewFreshBowl prepares the output folder (dirs, symlinks, truncation) before it can succeed; R13.3 codec pairing (every compression setting). ` +
 			`R02.8 (shared) whole-file copies between opened files truncate their destination. ` +
 			`R07.4 (shared) a ReadSeeker obtained from pool.GetReadSeeker is Seek'ed on every path before it is consumed as a plain reader (pools re-issue their open file at whatever position it was left). ` +
-			`NOT decided: the rolling search, range replay arithmetic, that the ops tile the file, tree equality.`,
+			`R01.9 every Write of an entry writer of package bowl (the dry bowl's excepted) passes its whole argument to a Write of what it wraps on every success path; R02.9 (shared) files created in the output folder replace what stands at their path. NOT decided: the rolling search, range replay arithmetic, that the ops tile the file, tree equality.`,
 		Run: runC01,
 	})
 }
@@ -190,6 +190,7 @@ func runC01(c *core.Ctx) {
 	c.Rule("R01.5", "fresh bowl preparation")
 	ruleCopiesTruncate(c)
 	ruleCommitWritersReplace(c)
+	ruleEntryWritersWriteEverything(c)
 	ruleRewindBeforeLinearRead(c, "R07.4")
 	c.Rule("R13.3", "codec pairing")
 	ruleMatchAcceptance(c, "R01.1")
@@ -388,71 +389,7 @@ func runC01(c *core.Ctx) {
 		c.Floor("R01.7", "success returns of "+name, n, 1)
 	}
 
-	// ---- R01.8: between a file's header and the next header (or the end), the file went through the differ
-	c.Rule("R01.8", "every file announced in the patch went through the differ")
-	if wp := c.P.Fn("pwr", "DiffContext.WritePatch"); wp == nil {
-		c.Missing("R01.8", "pwr.(*DiffContext).WritePatch", "not found")
-	} else {
-		isHdr := func(in ssa.Instruction) bool {
-			cl, ok := in.(ssa.CallInstruction)
-			if !ok || !strings.HasSuffix(core.CalleeName(cl), "WriteContext).WriteMessage") || len(cl.Common().Args) < 2 {
-				return false
-			}
-			return core.TypeName(core.StripConv(cl.Common().Args[1]).Type()) == "pwr.SyncHeader"
-		}
-		isDiff := func(in ssa.Instruction) bool {
-			cl, ok := in.(*ssa.Call)
-			if !ok {
-				return false
-			}
-			n := core.CalleeName(cl)
-			if strings.HasSuffix(n, "Context).ComputeDiff") {
-				return true
-			}
-			if n == "taskgroup.Do" {
-				// one of the tasks runs the differ
-				found := false
-				for _, a := range cl.Call.Args {
-					for _, o := range core.Origins(a) {
-						_ = o
-					}
-				}
-				for _, f := range core.WithAnons(wp) {
-					if f.Parent() == wp && len(core.CallsMatching(f, true, func(nm string, _ ssa.CallInstruction) bool { return strings.HasSuffix(nm, "Context).ComputeDiff") })) > 0 {
-						found = true
-					}
-				}
-				return found
-			}
-			return false
-		}
-		n := 0
-		core.Instrs(wp, func(in ssa.Instruction) {
-			if !isHdr(in) {
-				return
-			}
-			n++
-			var succ []ssa.Instruction
-			for _, rs := range successReturns(wp) {
-				succ = append(succ, rs.Ret)
-			}
-			isEnd := func(x ssa.Instruction) bool {
-				if x == in {
-					return true
-				}
-				for _, r := range succ {
-					if r == x {
-						return true
-					}
-				}
-				return false
-			}
-			p := core.FindPath(wp, in, isEnd, isDiff)
-			c.Check(p == nil, "R01.8", core.FnName(wp), "a file's series is produced by the differ", core.InstrPos(in),
-				"every path from this SyncHeader to the next one, or to the successful end, runs ComputeDiff (directly or as a task)", "a file can be announced in the patch (SyncHeader written) and closed without having gone through the differ: a shortcut writes its series by hand").Path = c.P.PathStrings(p)
-		})
-		c.Floor("R01.8", "SyncHeader writes in WritePatch", n, 1)
-	}
+	ruleEveryFileThroughTheDiffer(c)
 }
 
 // ruleFraming: R01.3 / R07.2 writer-side framing in WritePatch and Optimize.
@@ -660,4 +597,125 @@ func ruleCopyWritesWhatItRead(c *core.Ctx, rule string) {
 		})
 	}
 	c.Floor(rule, "read-then-write copy loops in ctxcopy", n, 1)
+}
+
+// ruleEntryWritersWriteEverything is R01.9 (shared with C03): the bytes the patcher hands to an entry writer
+// are the new file. Apart from the dry bowl's writer, which is there to write nothing, every Write of an
+// entry writer in package bowl passes its whole argument to a Write of what it wraps on every success path -
+// no run of bytes is "represented" by a seek (a file that is not pre-sized does not grow by seeking).
+func ruleEntryWritersWriteEverything(c *core.Ctx) {
+	c.Rule("R01.9", "entry writers hand every byte on")
+	n := 0
+	for _, fn := range c.P.SrcFuncs() {
+		if !strings.HasSuffix(core.PkgPathOf(fn), "/pwr/bowl") || fn.Name() != "Write" || fn.Signature.Recv() == nil || len(fn.Params) != 2 {
+			continue
+		}
+		tn := core.TypeName(fn.Signature.Recv().Type())
+		if !strings.HasSuffix(tn, "EntryWriter") || strings.Contains(tn, "nop") {
+			continue
+		}
+		n++
+		buf := fn.Params[1]
+		forwards := func(in ssa.Instruction) bool {
+			cl, ok := in.(ssa.CallInstruction)
+			if !ok {
+				return false
+			}
+			com := cl.Common()
+			name := ""
+			if com.IsInvoke() {
+				name = com.Method.Name()
+			} else if sc := com.StaticCallee(); sc != nil {
+				name = sc.Name()
+			}
+			if name != "Write" {
+				return false
+			}
+			for _, a := range com.Args {
+				if core.StripConv(a) == ssa.Value(buf) {
+					return true
+				}
+			}
+			return false
+		}
+		var bad []ssa.Instruction
+		for _, rs := range successReturns(fn) {
+			if p := core.FindPath(fn, nil, isInstr(rs.Ret), forwards); p != nil {
+				bad = p
+			}
+		}
+		c.Check(bad == nil, "R01.9", core.FnName(fn), "every success path writes the whole argument", fn.Pos(),
+			"a Write of the wrapped writer with the very buffer received", "this entry writer can report bytes as written without handing them to what it wraps (skipping runs of zeroes with a seek, say): in a file that was not given its final size beforehand - a new file staged for in-place application - the bytes after the last real write do not exist").Path = c.P.PathStrings(bad)
+	}
+	c.Floor("R01.9", "entry writers of package bowl", n, 2)
+}
+
+// ruleEveryFileThroughTheDiffer is R01.8 (shared with C08: a per-file shortcut past ComputeDiff looks blocks up
+// by its own conventions).
+func ruleEveryFileThroughTheDiffer(c *core.Ctx) {
+	// ---- R01.8: between a file's header and the next header (or the end), the file went through the differ
+	c.Rule("R01.8", "every file announced in the patch went through the differ")
+	if wp := c.P.Fn("pwr", "DiffContext.WritePatch"); wp == nil {
+		c.Missing("R01.8", "pwr.(*DiffContext).WritePatch", "not found")
+	} else {
+		isHdr := func(in ssa.Instruction) bool {
+			cl, ok := in.(ssa.CallInstruction)
+			if !ok || !strings.HasSuffix(core.CalleeName(cl), "WriteContext).WriteMessage") || len(cl.Common().Args) < 2 {
+				return false
+			}
+			return core.TypeName(core.StripConv(cl.Common().Args[1]).Type()) == "pwr.SyncHeader"
+		}
+		isDiff := func(in ssa.Instruction) bool {
+			cl, ok := in.(*ssa.Call)
+			if !ok {
+				return false
+			}
+			n := core.CalleeName(cl)
+			if strings.HasSuffix(n, "Context).ComputeDiff") {
+				return true
+			}
+			if n == "taskgroup.Do" {
+				// one of the tasks runs the differ
+				found := false
+				for _, a := range cl.Call.Args {
+					for _, o := range core.Origins(a) {
+						_ = o
+					}
+				}
+				for _, f := range core.WithAnons(wp) {
+					if f.Parent() == wp && len(core.CallsMatching(f, true, func(nm string, _ ssa.CallInstruction) bool { return strings.HasSuffix(nm, "Context).ComputeDiff") })) > 0 {
+						found = true
+					}
+				}
+				return found
+			}
+			return false
+		}
+		n := 0
+		core.Instrs(wp, func(in ssa.Instruction) {
+			if !isHdr(in) {
+				return
+			}
+			n++
+			var succ []ssa.Instruction
+			for _, rs := range successReturns(wp) {
+				succ = append(succ, rs.Ret)
+			}
+			isEnd := func(x ssa.Instruction) bool {
+				if x == in {
+					return true
+				}
+				for _, r := range succ {
+					if r == x {
+						return true
+					}
+				}
+				return false
+			}
+			p := core.FindPath(wp, in, isEnd, isDiff)
+			c.Check(p == nil, "R01.8", core.FnName(wp), "a file's series is produced by the differ", core.InstrPos(in),
+				"every path from this SyncHeader to the next one, or to the successful end, runs ComputeDiff (directly or as a task)", "a file can be announced in the patch (SyncHeader written) and closed without having gone through the differ: a shortcut writes its series by hand").Path = c.P.PathStrings(p)
+		})
+		c.Floor("R01.8", "SyncHeader writes in WritePatch", n, 1)
+	}
 }
